@@ -91,10 +91,13 @@ def check_readout(V, h, S, P, burn, thin, stats):
     want_P = P[burn::thin]
     k = want_S.shape[0]
     tag = "%s burn=%d thin=%d (chain of %d rows, %d retained)" % (h.kind, burn, thin, n, k)
+    npi = bool(h.cfg.get("np_ints"))
+    b_, t_ = (np.int64(burn), np.int32(thin)) if npi else (burn, thin)
     try:
-        gs = np.asarray(lib_call("get_sample", h.chain.get_sample, burn=burn, thin=thin))
-        gp = np.asarray(lib_call("get_probabilities", h.chain.get_probabilities, burn=burn, thin=thin))
-        params = [np.asarray(lib_call("get_parameter", h.chain.get_parameter, i, burn=burn, thin=thin)) for i in range(h.d)]
+        gs = np.asarray(lib_call("get_sample", h.chain.get_sample, burn=b_, thin=t_))
+        gp = np.asarray(lib_call("get_probabilities", h.chain.get_probabilities, burn=b_, thin=t_))
+        params = [np.asarray(lib_call("get_parameter", h.chain.get_parameter, np.intp(i) if npi else i, burn=b_, thin=t_))
+                  for i in range(h.d)]
     except LibRaised as e:
         _viol(V, "readout.raised", "%s: %s" % (tag, e))
         return
@@ -182,8 +185,14 @@ def check_interval(V, h, S, P, f, burn, thin, samples, stats):
     tag = "%s get_interval(%g, burn=%d, thin=%d, samples=%r) on %d rows" % (h.kind, f, burn, thin, samples, n)
     if S[burn:].shape[0] == 0:
         return
+    npi = bool(h.cfg.get("np_ints"))
     try:
-        R, Q = lib_call("get_interval", h.chain.get_interval, interval=f, burn=burn, thin=thin, samples=samples)
+        if npi:
+            stats["fault_numpy_integer_arguments"] += 1
+            R, Q = lib_call("get_interval", h.chain.get_interval, interval=f, burn=np.int64(burn), thin=np.int32(thin),
+                            samples=None if samples is None else np.int64(samples))
+        else:
+            R, Q = lib_call("get_interval", h.chain.get_interval, interval=f, burn=burn, thin=thin, samples=samples)
     except LibRaised as e:
         _viol(V, "interval.raised", "%s: %s" % (tag, e))
         return
@@ -252,6 +261,8 @@ def execute(sc):
                         # the caller re-uses its start array: the chain already recorded must read out unchanged
                         S0, P0 = h.rows()
                         st_arr = h.inputs["start"]
+                        if not (isinstance(st_arr, np.ndarray) and st_arr.flags.writeable):
+                            continue  # a list / read-only array cannot be overwritten in place
                         st_arr += (1000 + np.arange(st_arr.size)).reshape(st_arr.shape).astype(st_arr.dtype)
                         stats["fault_caller_overwrites_start_array"] += 1
                         S1, P1 = h.rows()
